@@ -2,6 +2,7 @@ package seqiox
 
 import (
 	"bytes"
+	"errors"
 	"io"
 	"net"
 	"sync"
@@ -23,27 +24,31 @@ type ProxyCase struct {
 	Closer  string   `json:"closer"`            // which end closes first: A | B
 	TailEOF bool     `json:"taileof,omitempty"` // the A side is a stream that returns its last bytes together with io.EOF
 	NilCb   bool     `json:"nilcb,omitempty"`
+	// the finite streams answer Close with an error (a connection that is already gone does)
+	CloseErr bool `json:"closeerr,omitempty"`
 }
 
 func genProxy(t *rapid.T) ProxyCase {
 	chunk := rapid.SliceOfN(rapid.Byte(), 0, ev.Pick(40, 20000))
 	return ProxyCase{
-		AtoB:    rapid.SliceOfN(chunk, 0, 6).Draw(t, "atob"),
-		BtoA:    rapid.SliceOfN(chunk, 0, 6).Draw(t, "btoa"),
-		ReadBuf: rapid.IntRange(1, 64).Draw(t, "readbuf"),
-		Closer:  rapid.SampledFrom([]string{"A", "B"}).Draw(t, "closer"),
-		NilCb:   rapid.IntRange(0, 9).Draw(t, "nilcb") == 0,
-		TailEOF: rapid.IntRange(0, 3).Draw(t, "taileof") == 0,
+		AtoB:     rapid.SliceOfN(chunk, 0, 6).Draw(t, "atob"),
+		BtoA:     rapid.SliceOfN(chunk, 0, 6).Draw(t, "btoa"),
+		ReadBuf:  rapid.IntRange(1, 64).Draw(t, "readbuf"),
+		Closer:   rapid.SampledFrom([]string{"A", "B"}).Draw(t, "closer"),
+		NilCb:    rapid.IntRange(0, 9).Draw(t, "nilcb") == 0,
+		TailEOF:  rapid.IntRange(0, 3).Draw(t, "taileof") == 0,
+		CloseErr: rapid.IntRange(0, 2).Draw(t, "closeerr") == 0,
 	}
 }
 
 // tailReader is a stream whose Read hands out its last bytes together with io.EOF
 // (allowed by the io.Reader contract; files and TLS connections do it).
 type tailReader struct {
-	mu     sync.Mutex
-	chunks [][]byte
-	closes atomic.Int32
-	wrote  int
+	mu       sync.Mutex
+	chunks   [][]byte
+	closes   atomic.Int32
+	wrote    int
+	closeErr error
 }
 
 func (r *tailReader) Read(p []byte) (int, error) {
@@ -77,7 +82,7 @@ func (r *tailReader) Write(p []byte) (int, error) {
 	return len(p), nil
 }
 
-func (r *tailReader) Close() error { r.closes.Add(1); return nil }
+func (r *tailReader) Close() error { r.closes.Add(1); return r.closeErr }
 
 // checkProxyTail: the A side delivers its last bytes together with io.EOF.
 func checkProxyTail(t *testing.T, v *ev.Verdict, c ProxyCase, fail func(sig, f string, a ...any)) {
@@ -90,6 +95,9 @@ func checkProxyTail(t *testing.T, v *ev.Verdict, c ProxyCase, fail func(sig, f s
 				chunks = append(chunks, append([]byte(nil), ch...))
 			}
 			src := &tailReader{chunks: chunks}
+			if c.CloseErr {
+				src.closeErr = errors.New("close: connection reset")
+			}
 			b1, b2 := net.Pipe()
 			p2 := &countConn{Conn: b1}
 			var cbs atomic.Int32
@@ -130,6 +138,9 @@ func checkProxyTail(t *testing.T, v *ev.Verdict, c ProxyCase, fail func(sig, f s
 		v.SetNT(P)
 	}
 	v.Class("last-bytes-delivered-with-eof")
+	if c.CloseErr {
+		v.Class("close-answers-with-an-error")
+	}
 }
 
 // checkProxyBothEOF: both sides are finite streams that end on their own. The callback
@@ -145,7 +156,11 @@ func checkProxyBothEOF(t *testing.T, v *ev.Verdict, c ProxyCase, fail func(sig, 
 				for _, ch := range in {
 					chunks = append(chunks, append([]byte(nil), ch...))
 				}
-				return &tailReader{chunks: chunks}
+				r := &tailReader{chunks: chunks}
+				if c.CloseErr {
+					r.closeErr = errors.New("close: connection reset")
+				}
+				return r
 			}
 			a, b := mk(c.AtoB), mk(c.BtoA)
 			var cbs atomic.Int32
